@@ -16,7 +16,7 @@ import re
 from .explore import Inadmissible
 
 DECOS = ['imp-card', 'dot-numbers', 'exp-numbers', 'kw-extra', 'upper', 'split5', 'amp', 'comments', 'tabs',
-         'lead-blanks', 'message']
+         'lead-blanks', 'message', 'wide', 'many-lines']
 
 FLOAT = re.compile(r'^[-+]?(\d+\.\d*|\.\d+)$')
 KW_START = re.compile(r'(?i)(\*?fill\b|\*?trcl\b|imp:|\bu=|\blat=|\bvol=|\bmat=|\brho=|\btmp=)')
@@ -221,6 +221,36 @@ def apply(st, deco):
     elif deco == 'lead-blanks':
         lead = lambda lst: [(' ' * (1 + i % 4)) + c if not c.startswith(' ') else c for i, c in enumerate(lst)]
         st.cells, st.surfs, st.data = lead(st.cells), lead(st.surfs), lead(st.data)
+    elif deco == 'wide':
+        # lines may be up to 128 columns wide: push the last field of every card beyond column 80
+        def wide(c):
+            if '\n' in c or '$' in c or '&' in c or re.match(r'^\s{0,4}[cC](\s|$)', c):
+                return c
+            k = c.rstrip().rfind(' ')
+            if k <= 0 or len(c) > 110 or '(' in c[k:] and ')' not in c[k:]:
+                return c
+            last = c[k + 1:]
+            pad = max(1, 84 - k - 1)
+            if k + pad + len(last) > 126:
+                return c
+            return c[:k] + ' ' * pad + last
+        new = [[wide(c) for c in lst] for lst in (st.cells, st.surfs, st.data)]
+        if new == [st.cells, st.surfs, st.data]:
+            raise Inadmissible('no card to widen')
+        st.cells, st.surfs, st.data = new
+    elif deco == 'many-lines':
+        # every field of a card on a line of its own (continuation by five blanks)
+        def many(c):
+            if '\n' in c or '$' in c or '&' in c or re.match(r'^\s{0,4}[cC](\s|$)', c):
+                return c
+            words = c.split(' ')
+            if len(words) < 4:
+                return c
+            return words[0] + ' ' + words[1] + ''.join('\n      ' + w for w in words[2:] if w)
+        new = [[many(c) for c in lst] for lst in (st.cells, st.surfs, st.data)]
+        if new == [st.cells, st.surfs, st.data]:
+            raise Inadmissible('no card long enough')
+        st.cells, st.surfs, st.data = new
     elif deco == 'message':
         st.title = 'message: outp=deck.o runtpe=deck.r\n\n' + st.title
     else:
